@@ -59,6 +59,14 @@ type encProbe struct {
 	Quoted bool   `json:"quoted"`
 }
 
+// encLC is the level colour configuration of spec/Encoder.tla (record field lc): with Set the
+// worker calls slog.SetLevelColors(sev, fg, bg) with concrete codes of the stated classes.
+type encLC struct {
+	Set bool   `json:"set"`
+	Fg  string `json:"fg"` // "none" | "fg"
+	Bg  string `json:"bg"` // "none" | "bg" | "attr"
+}
+
 type encRec struct {
 	ID      int        `json:"id"`
 	Fmt     string     `json:"fmt"`
@@ -70,6 +78,7 @@ type encRec struct {
 	Minw    int        `json:"minw"`
 	Msg     []string   `json:"msg"`
 	Attrs   []*encNode `json:"attrs"`
+	LC      encLC      `json:"lc"`
 }
 
 type encCase struct {
@@ -427,12 +436,17 @@ func encPathKey(p []int) string {
 	return sb.String()
 }
 
+// key identities of spec/Encoder.tla's ReservedIds
+var encReservedKeys = map[int]string{-1: "caller", 96: "level", 97: "logger", 98: "msg", 99: "time"}
+
 func (r *encRun) key(n *encNode, probe bool) string {
 	if k, ok := r.keys[n.K]; ok {
 		return k
 	}
 	var k string
 	switch {
+	case encReservedKeys[n.K] != "":
+		k = encReservedKeys[n.K] // a field name the encoders use themselves
 	case n.K == 0:
 		k = ""
 	case probe:
@@ -589,6 +603,13 @@ func encMain(args []string) int {
 		slog.SetLevelOutputWidth(c.Width)
 		slog.SetMessageMinimalWidth(c.Minw)
 		l := encLogger(c.Fmt, r.name, c.Name.Has)
+		if c.LC.Fg == "" {
+			c.LC.Fg, c.LC.Bg = "none", "none"
+		}
+		lcFg, lcBg := -1, -1
+		if c.LC.Set {
+			lcFg, lcBg = encSetColours(c.Sev, c.LC, r.g.r)
+		}
 		encCap.chunks = encCap.chunks[:0]
 		pc, file, line, fn := encCallSite()
 		if !c.Caller {
@@ -603,6 +624,9 @@ func encMain(args []string) int {
 			}()
 			l.WriteThru(context.Background(), slog.Level(c.Sev), encTS, pc, r.msg, attrs)
 		}()
+		if c.LC.Set {
+			encRestoreColours(c.Sev)
+		}
 		var payload []byte
 		for _, ch := range encCap.chunks {
 			payload = append(payload, ch...)
@@ -626,7 +650,12 @@ func encMain(args []string) int {
 			line1["probe"] = map[string]any{"cls": pr.Cls, "form": form, "found": found, "quoted": pr.Quoted}
 		}
 		out.emit(line1)
-		det.emit(map[string]any{"id": c.ID, "payload": strconv.QuoteToASCII(string(payload)), "msg": strconv.QuoteToASCII(r.msg),
+		lcon := true // the configured codes were switched on somewhere in the record (binding of SetLevelColors, not judged)
+		if st, ok := obs["stream"].([]int); ok && c.LC.Set {
+			lcon = (lcFg < 0 || encIntIn(st, lcFg)) && (lcBg < 0 || encIntIn(st, lcBg))
+		}
+		det.emit(map[string]any{"id": c.ID, "lc": []int{lcFg, lcBg}, "lcon": lcon,
+			"payload": strconv.QuoteToASCII(string(payload)), "msg": strconv.QuoteToASCII(r.msg),
 			"name": strconv.QuoteToASCII(r.name), "keys": encKeyList(r), "values": encValueList(c.Attrs), "panic": panicked, "unmatched": r.unmatched})
 	}
 	return 0
